@@ -168,8 +168,12 @@ def run(prog: Program, rep, tier: str) -> None:
     si = fi_.stmt_of(sup[0])
     pinit = prog.func("pygradflow.problem.Problem.__init__")
     pp, scp = [p for p in init.params if p != "self"][:2]
-    argmap = {"var_lb": (sup[0].args[0] if sup[0].args else None, F(v=1)), "var_ub": (sup[0].args[1] if len(sup[0].args) > 1 else None, F(v=1)),
-              "cons_lb": (kwarg(sup[0], "cons_lb"), F(c=1)), "cons_ub": (kwarg(sup[0], "cons_ub"), F(c=1))}
+    bound = bind_args(pinit, sup[0])
+    if bound is None:
+        raise AnalysisError("ScaledProblem.__init__: cannot bind the arguments of super().__init__(..) to Problem.__init__")
+    explicit = {id(x) for x in sup[0].args} | {id(k.value) for k in sup[0].keywords}
+    argmap = {b: (bound.get(b) if id(bound.get(b)) in explicit else None, want) for b, want in
+              (("var_lb", F(v=1)), ("var_ub", F(v=1)), ("cons_lb", F(c=1)), ("cons_ub", F(c=1)))}
     for bname, (arg, want) in argmap.items():
         if arg is None:
             rep.fail("scaled-problem-exponents", init.qualname, bname, f"VIOLATED: ScaledProblem does not pass {bname} to Problem.__init__", init.loc())
